@@ -116,6 +116,15 @@ Next == /\ ~done /\ done' = TRUE
              /\ \A k \in {0, 1, 2, 3, 4, 13, 14, 53, 54, 1077, 1078, 1079, Len(std) - 1} : Emit(<<"tsbmp-prefix", k>>, "tileset", "prefix", SubSeq(std, 1, k), "refuse", <<>>)
              /\ \A f \in {g \in BmpFields : g[1] \in {"bmp.width", "bmp.height", "bmp.bitCount"}} : \A v \in BmpValues(f, TsPic(32)) :
                   Emit(<<"tsbmp-field", f[1], v>>, "tileset", f[1], SetBytes(std, f[2], v), "any", <<>>)
+        \* PRT without animations (palettes and images only; nothing at all): the file ends with the four words of the animation header
+        /\ \A nb \in 1..2 :
+             LET full == PrtParts(IF nb = 1 THEN BaseImgs ELSE <<>>, 2)
+                 cutAt == IndexOf(full, "animCount", 1)
+                 head == IF nb = 1 THEN SubSeq(full, 1, cutAt - 1) ELSE << P("cpal", TagCPAL), F("paletteCount", 0), F("imageCount", 0) >>
+                 parts == head \o << F("animCount", 0), F("frameTotal", 0), F("layerTotal", 0), F("unknownTotal", 0) >>
+                 img == PBytes(parts) IN
+             /\ Emit(<<"prt0-base", nb>>, "prt", "none", img, "accept", PixelFiles)
+             /\ \A k \in {x \in ((Len(img) - 24)..(Len(img) - 1)) : x >= 0} : Emit(<<"prt0-prefix", nb, k>>, "prt", "prefix", SubSeq(img, 1, k), "refuse", <<>>)
         \* PRT
         /\ LET parts == PrtParts(BaseImgs, 2)  img == PBytes(parts) IN
              /\ Emit(<<"prt-base">>, "prt", "none", img, "accept", PixelFiles)
